@@ -228,11 +228,7 @@ fn ser_named_type(ty: &OwnedDataModelType, value: &Value, out: &mut Vec<u8>) -> 
             name: _,
             data: OwnedData::Tuple(tys),
         } => {
-            // Tuples with arity of 1 are not arrays, but instead just a single object
-            if tys.len() == 1 {
-                return ser_named_type(&tys[0], value, out);
-            }
-
+            // serde_json writes tuples of every arity, 0 and 1 included, as arrays
             let val = value.as_array().right()?;
 
             if val.len() != tys.len() {
@@ -340,11 +336,7 @@ fn ser_named_type(ty: &OwnedDataModelType, value: &Value, out: &mut Vec<u8>) -> 
                         ser_named_type(ty, v, out)?;
                     }
                     OwnedData::Tuple(tys) => {
-                        // Tuples with arity of 1 are not arrays, but instead just a single object
-                        if tys.len() == 1 {
-                            return ser_named_type(&tys[0], v, out);
-                        }
-
+                        // serde_json writes tuples of every arity, 0 and 1 included, as arrays
                         let val = v.as_array().right()?;
 
                         if val.len() != tys.len() {
